@@ -260,6 +260,157 @@ type c11ConcOut struct {
 	Effects   []c11Del `json:"effects"`   // value produced by each evaluation and the goroutine it ran on
 	Delivered []c11Del `json:"delivered"` // OnNext deliveries
 	Kind      string   `json:"kind"`
+	MaxIn     int      `json:"maxin"` // fresh: the largest number of effects seen inside the handler at once
+}
+
+// sibling instances: two monads built by the same constructor call with the same value; configuring ONE of them with
+// ObserveOn(h1).SubscribeOn(h2) leaves the other unconfigured: its Subscribe runs effect and OnNext on the caller, before it returns.
+func c11Siblings(w *ndWriter) int {
+	n := 0
+	for _, ctor := range []string{"Just.method", "JustGenerics", "New.method", "NewGenerics"} {
+		for _, val := range []int{0, 7} { // 0 stands for nil where the constructor takes an interface{}
+			e := &c11Env{thr: map[int64]string{gid(): "caller"}, h: map[string]*fpgo.HandlerDef{}}
+			e.h["h1"], e.h["h2"] = fpgo.Handler.NewByCh(make(chan func(), 8)), fpgo.Handler.NewByCh(make(chan func(), 8))
+			out := c11ConcOut{Part: "sibling", N: val, ObOn: "nil", SubOn: "caller", NewSub: ctor, Kind: "ok", Effects: []c11Del{}, Delivered: []c11Del{}}
+			ok := e.syncHandler("h1") && e.syncHandler("h2")
+			var mu sync.Mutex
+			eff := func() {
+				who := e.who()
+				mu.Lock()
+				out.Effects = append(out.Effects, c11Del{val, who})
+				mu.Unlock()
+			}
+			del := func(v int) {
+				who := e.who()
+				mu.Lock()
+				out.Delivered = append(out.Delivered, c11Del{v, who})
+				mu.Unlock()
+			}
+			func() {
+				defer func() {
+					if r := recover(); r != nil {
+						out.Kind = "panic"
+					}
+				}()
+				switch ctor {
+				case "Just.method", "New.method":
+					var iv interface{}
+					if val != 0 {
+						iv = val
+					}
+					mk := func() *fpgo.MonadIODef[interface{}] {
+						if ctor == "Just.method" {
+							return fpgo.MonadIO.Just(iv)
+						}
+						return fpgo.MonadIO.New(func() interface{} { eff(); return iv })
+					}
+					m1, m2 := mk(), mk()
+					m1.ObserveOn(e.h["h1"]).SubscribeOn(e.h["h2"])
+					m2.Subscribe(fpgo.Subscription[interface{}]{OnNext: func(v interface{}) {
+						if v == nil {
+							del(0)
+						} else {
+							del(v.(int))
+						}
+					}})
+				default:
+					mk := func() *fpgo.MonadIODef[int] {
+						if ctor == "JustGenerics" {
+							return fpgo.MonadIOJustGenerics(val)
+						}
+						return fpgo.MonadIONewGenerics(func() int { eff(); return val })
+					}
+					m1, m2 := mk(), mk()
+					m1.ObserveOn(e.h["h1"]).SubscribeOn(e.h["h2"])
+					m2.Subscribe(fpgo.Subscription[int]{OnNext: del})
+				}
+			}()
+			mu.Lock()
+			inline := len(out.Delivered)
+			mu.Unlock()
+			if inline == 0 { // not delivered when Subscribe returned: see where it goes, for the report
+				time.Sleep(30 * time.Millisecond)
+				out.Kind = "late"
+			}
+			if !ok {
+				out.Kind = "stuck"
+			}
+			mu.Lock()
+			w.write(out)
+			mu.Unlock()
+			n++
+			for _, h := range e.h {
+				h.Close()
+			}
+		}
+	}
+	return n
+}
+
+// fresh handlers: the FIRST Posts a just constructed Handler sees come from k goroutines released together (k monads observed on
+// it): every effect runs on ONE goroutine - the handler's - and never two at a time.
+func c11FreshHandler(w *ndWriter, trials int) int {
+	for t := 0; t < trials; t++ {
+		k := 2 + t%5
+		h1 := fpgo.Handler.NewByCh(make(chan func(), 8))
+		out := c11ConcOut{Part: "fresh", N: k, ObOn: "g1", SubOn: "nil", NewSub: "-", Kind: "ok", Effects: []c11Del{}, Delivered: []c11Del{}}
+		var mu sync.Mutex
+		gids := map[int64]string{}
+		var in, ready, start int32
+		done := make(chan struct{}, k)
+		var wg sync.WaitGroup
+		for i := 0; i < k; i++ {
+			v := i + 1
+			m := fpgo.MonadIONewGenerics(func() int {
+				c := int(atomic.AddInt32(&in, 1))
+				g := gid()
+				mu.Lock()
+				if _, ok := gids[g]; !ok {
+					gids[g] = fmt.Sprintf("g%d", len(gids)+1)
+				}
+				if c > out.MaxIn {
+					out.MaxIn = c
+				}
+				out.Effects = append(out.Effects, c11Del{v, gids[g]})
+				mu.Unlock()
+				for j := 0; j < 200; j++ {
+					runtime.Gosched()
+				}
+				atomic.AddInt32(&in, -1)
+				return v
+			}).ObserveOn(h1)
+			wg.Add(1)
+			go func() {
+				defer wg.Done()
+				atomic.AddInt32(&ready, 1)
+				for atomic.LoadInt32(&start) == 0 {
+				}
+				m.Subscribe(fpgo.Subscription[int]{OnNext: func(v int) {
+					mu.Lock()
+					out.Delivered = append(out.Delivered, c11Del{v, "-"})
+					mu.Unlock()
+					done <- struct{}{}
+				}})
+			}()
+		}
+		for atomic.LoadInt32(&ready) < int32(k) {
+			runtime.Gosched()
+		}
+		atomic.StoreInt32(&start, 1)
+		wg.Wait()
+		for i := 0; i < k; i++ {
+			select {
+			case <-done:
+			case <-time.After(3 * time.Second):
+				out.Kind = "stuck"
+			}
+		}
+		mu.Lock()
+		w.write(out)
+		mu.Unlock()
+		h1.Close()
+	}
+	return trials
 }
 
 func c11Conc(w *ndWriter) int {
@@ -455,6 +606,8 @@ func c11Main(args []string) error {
 		total := 0
 		for i := 0; i < flagInt(args, "repeat", 3); i++ {
 			total += c11Conc(w)
+			total += c11Siblings(w)
+			total += c11FreshHandler(w, flagInt(args, "fresh", 150))
 		}
 		fmt.Printf("{\"runs\":%d}\n", total)
 		return nil
